@@ -535,4 +535,14 @@ def rule_presurv(ctx):
                         "survival rule", lambda i: C.ANNEAL in i.construct, 3)
 
 
-RULES = [rule_copy, rule_alias, rule_track, rule_staleread, rule_pre, rule_whole, rule_presurv]
+def rule_pure(ctx):
+    """Shared with C02-PURE."""
+    from .c02 import rule_pure as src
+
+    return C.reuse_rule(ctx, src, "C02-PURE", "C04-PURE",
+                        "inplace=False transformations leave the original untouched",
+                        lambda i: True, 8)
+
+
+RULES = [rule_copy, rule_alias, rule_track, rule_staleread, rule_pre, rule_whole, rule_presurv,
+         rule_pure]
